@@ -20,6 +20,9 @@ def handle : Handler
     else if rowBroken a b then
       s!"VIOL hb-unordered field={f} a={fa} b={fb} (confinement row present, but the regenerated table does not show its release/acquire operations: a.pre={pa} a.post={qa} a.roots={ra} b.pre={pb} b.post={qb} b.roots={rb})"
     else s!"VIOL unprotected field={f} a={fa} b={fb}"
+  | ["ppw", e], [out] =>
+    -- one entry of the regenerated list `postPublicationWrites` (must be empty: `C18_published_immutable`)
+    if out == "absent" then "OK b=absent" else s!"VIOL post-publication-write {e}"
   | _, _ => "BAD c18 line"
 
 end GB.C18
